@@ -1,0 +1,65 @@
+//go:build verif
+
+package prefork
+
+// C39, prefork supervision. Checked by /verif/gocv (comment-only; compiled to nothing).
+//
+// prefork: every child that was started gets its Wait goroutine before any user hook can make prefork return, and on
+// every return path after the first child could have been started the teardown (shutdownChildren) runs exactly once.
+//@ func Prefork.prefork results err
+//@   property C39
+//@   mode skeleton
+//@   nooverflow
+//@   ghost started int = 0
+//@   ghost waited int = 0
+//@   ghost shut int = 0
+//@   on call Prefork.doCommand -> cmd, e:
+//@     requires[previous-child-has-a-waiter] waited == started
+//@     effect started = started + (e == nil ? 1 : 0)
+//@   on call value:startWait:
+//@     requires[waiter-for-the-child-just-started] waited == started - 1
+//@     effect waited = waited + 1
+//@   on call field:OnChildSpawn -> e:
+//@     requires[waiter-before-hook] waited == started
+//@   on call field:OnMasterReady -> e:
+//@     requires[all-children-have-waiters] waited == started
+//@   on call Prefork.shutdownChildren:
+//@     effect shut = shut + 1
+//@   end
+//@   loop 2:
+//@     invariant[each-child-waited] waited == started && shut == 0
+//@   loop 3:
+//@     invariant[each-child-waited] waited == started && shut == 0
+//@   ensures[every-child-has-a-waiter] waited == started
+//@   ensures[teardown-exactly-once] started > 0 ==> shut == 1
+//@   ensures[at-most-one-teardown] shut <= 1
+
+// shutdownChildren: cancels the waiters' context first, kills only after the grace period expired (or at once on
+// Windows), and returns only after every child was reaped -- either wg.Wait returned here or the helper goroutine
+// that waits on wg reported completion.
+//@ func Prefork.shutdownChildren
+//@   property C39
+//@   mode skeleton
+//@   ghost cancelled bool = false
+//@   ghost graceOver bool = false
+//@   ghost reapedSeen bool = false
+//@   ghost reaped bool = false
+//@   on call value:cancel:
+//@     nohavoc
+//@     effect cancelled = true
+//@   on call sync.WaitGroup.Wait:
+//@     nohavoc
+//@     requires[cancelled-before-waiting] cancelled
+//@     effect reaped = true
+//@   on recv graceful:
+//@     effect reapedSeen = true
+//@   on recv timer.C:
+//@     effect graceOver = true
+//@   on call Prefork.killChild:
+//@     nohavoc
+//@     requires[kill-only-after-grace-or-on-windows] cancelled && (graceOver || runtime.GOOS == "windows")
+//@   on go funclit:
+//@     nohavoc
+//@   end
+//@   ensures[reaped-before-return] reaped || reapedSeen
+//@   ensures[context-cancelled] cancelled
